@@ -38,9 +38,15 @@ func verifIPCRecord(arg messages.Arg, response *[]byte) error {
 	verifSeenBody = len(arg.Body)
 	return messages.ErrBadRequest
 }
-func verifIPCProxyPolls(i *IPC, arg messages.Arg, response *[]byte) error   { return verifIPCRecord(arg, response) }
-func verifIPCClientOffers(i *IPC, arg messages.Arg, response *[]byte) error { return verifIPCRecord(arg, response) }
-func verifIPCProxyAnswers(i *IPC, arg messages.Arg, response *[]byte) error { return verifIPCRecord(arg, response) }
+func verifIPCProxyPolls(i *IPC, arg messages.Arg, response *[]byte) error {
+	return verifIPCRecord(arg, response)
+}
+func verifIPCClientOffers(i *IPC, arg messages.Arg, response *[]byte) error {
+	return verifIPCRecord(arg, response)
+}
+func verifIPCProxyAnswers(i *IPC, arg messages.Arg, response *[]byte) error {
+	return verifIPCRecord(arg, response)
+}
 
 func VerifC14_BodyLimit() {
 	i := &IPC{}
